@@ -1,7 +1,8 @@
 SPECIFICATION Spec
 CONSTANTS
-  N = 3
-  MaxSeeds = 2
+  N = 2
+  MaxSeeds = 3
   BugSeedsNotDeduplicated = FALSE
+  BugSeenBeforeAccepted = FALSE
 INVARIANTS NeverTwice Complete
 PROPERTY Terminates
